@@ -100,7 +100,9 @@ func head(s []string, n int) []string {
 
 // Cmd is one command of a client program.
 type Cmd struct {
-	Args []B `json:"a"`
+	Args []B `json:"a,omitempty"`
+	// SleepMS > 0: not a command; the client stays idle for that long
+	SleepMS int `json:"sleep_ms,omitempty"`
 	// Node: 0 = the tape chooses a serving node for this command; >0 = that node.
 	Node int `json:"n,omitempty"`
 }
@@ -140,6 +142,9 @@ type Knobs struct {
 	// SectorLoss: "" = any subset of unsynced sectors may be lost in a crash;
 	// "all-or-none" = no torn writes; "none" = everything written survives.
 	SectorLoss string `json:"sector_loss,omitempty"`
+	// TTL: clients also issue time-dependent commands on keys of their own
+	// ("e<client>"); see ttl.go for what is then demanded.
+	TTL bool `json:"ttl,omitempty"`
 	// OnePerNode: at most one client command is outstanding per node (no two
 	// connection handlers of one node are ever active in the same step).
 	OnePerNode bool `json:"one_per_node,omitempty"`
